@@ -625,12 +625,25 @@ func c03SharedTerms(c *core.C) {
 	if r.Intn(2) == 0 {
 		free.Facts = []ast.Pred{ast.P("note", ast.Int(1))}
 	}
+	respelled := r.Intn(2) == 0
+	if respelled {
+		// the check-free block states the authority block's facts once more, the members of the sets in
+		// another order: the same facts, so nothing new - and the authority's own spelling stays what
+		// everybody else is shown
+		free.Facts = append(free.Facts, ast.P("allowed", ast.SetOf(strs[2], strs[0], strs[1])), ast.P("nums", ast.SetOf(ast.Int(2), ast.Int(3), ast.Int(1))))
+		// (the builders put the members of a set in order, so the only spelling that survives into a token
+		// is a repeated member: [1, 2, 2] and [1, 1, 2] are the same fact to the engine)
+		auth.Facts = append(auth.Facts, ast.P("dups", ast.SetOf(ast.Int(1), ast.Int(2), ast.Int(2))), ast.P("dupstr", ast.SetOf(strs[0], strs[1], strs[1])))
+		free.Facts = append(free.Facts, ast.P("dups", ast.SetOf(ast.Int(1), ast.Int(1), ast.Int(2))), ast.P("dupstr", ast.SetOf(strs[0], strs[0], strs[1])))
+		c.Count("shared_set_term_pairs_respelled", 1)
+	}
 	asking := ast.Block{Checks: []ast.Check{
 		{Queries: []ast.Rule{{Head: ast.P("query"), Body: []ast.Pred{ast.P("allowed", sv)}, Exprs: []ast.Expr{{ast.OV(sv), ast.OV(strs[0]), ast.OB(int(ast.BContains))}}}}},
 		{Queries: []ast.Rule{{Head: ast.P("query"), Body: []ast.Pred{ast.P("nums", nv)}, Exprs: []ast.Expr{{ast.OV(nv), ast.OU(int(ast.ULength)), ast.OV(ast.Int(3)), ast.OB(int(ast.BEqual))}}}}},
 	}}
 	a := ast.AuthContent{Policies: []ast.Policy{allowAll}}
-	probes := []ast.Rule{{Head: ast.P("probe_allowed", sv), Body: []ast.Pred{ast.P("allowed", sv)}}, {Head: ast.P("probe_nums", nv), Body: []ast.Pred{ast.P("nums", nv)}}}
+	probes := []ast.Rule{{Head: ast.P("probe_allowed", sv), Body: []ast.Pred{ast.P("allowed", sv)}}, {Head: ast.P("probe_nums", nv), Body: []ast.Pred{ast.P("nums", nv)}},
+		{Head: ast.P("probe_dups", nv), Body: []ast.Pred{ast.P("dups", nv)}}, {Head: ast.P("probe_dupstr", sv), Body: []ast.Pred{ast.P("dupstr", sv)}}}
 	without, err1 := buildScenarioToken(c.Seed, fmt.Sprintf("c03s-%d-a", c.Idx), []ast.Block{auth, asking})
 	with, err2 := buildScenarioToken(c.Seed, fmt.Sprintf("c03s-%d-b", c.Idx), []ast.Block{auth, free, asking})
 	if err1 != nil || err2 != nil {
@@ -655,6 +668,31 @@ func c03SharedTerms(c *core.C) {
 	} else if core.JSON(wi.Queries) != core.JSON(wo.Queries) {
 		c.Violate("check-free-block-changes-query-results/shared-set-term", "authorizer query results differ with a check-free block that computes on the authority block's sets", desc)
 	}
+	// the answers as the library spells them (member order included), after Authorize and after a second Authorize
+	raw := func(t *lib.Token) string {
+		out := ""
+		lib.Try(func() {
+			az, err := t.B.AuthorizerFor(biscuit.WithSingularRootPublicKey(t.Pub), lib.BigLimits())
+			if err != nil {
+				out = "error: " + err.Error()
+				return
+			}
+			lib.AddContent(az, a)
+			for k := 0; k < 2; k++ {
+				_ = az.Authorize()
+				for _, p := range probes {
+					fs, err := az.Query(p.Lib())
+					out += fmt.Sprintf("%v %v;", fs, err)
+				}
+			}
+		})
+		return out
+	}
+	if rw, ro := raw(with), raw(without); rw != ro {
+		desc["raw_with"], desc["raw_without"] = rw, ro
+		c.Violate("check-free-block-changes-query-results/spelling-of-shared-set-term", "the facts an authorizer query returns are spelled differently with a check-free block that restates them", desc)
+	}
+	c.Eval(2)
 	c.Count("shared_set_term_pairs", 1)
 	c.NT("shared-terms/" + core.JSON(desc["check_free_block"]) + whole.Key())
 }
@@ -674,9 +712,84 @@ func shiftFailed(failed []string, p int) []string {
 	return out
 }
 
+// c03FailedBlockThenQuery: a later block whose own evaluation hits a run limit (iterations or facts)
+// makes Authorize fail - and still leaves nothing of itself behind: what the authorizer answers to
+// queries, and prints as its world, afterwards is what it answers for the token without that block.
+func c03FailedBlockThenQuery(c *core.C) {
+	r := c.R
+	n := 3 + r.Intn(3)
+	auth := ast.Block{Facts: factsP(n)}
+	var heavy ast.Block
+	var opt biscuit.AuthorizerOption
+	kind := []string{"max-iterations", "max-facts"}[c.Idx%2]
+	if kind == "max-iterations" {
+		fs, rs := ruleChainProg(6)
+		heavy = ast.Block{Facts: fs, Rules: rs}
+		opt = biscuit.WithWorldOptions(datalog.WithMaxFacts(100000), datalog.WithMaxIterations(2), datalog.WithMaxDuration(60*time.Second))
+	} else {
+		heavy = ast.Block{Facts: []ast.Pred{ast.P("step0")}, Rules: []ast.Rule{{Head: ast.P("pair", vX, vY), Body: []ast.Pred{ast.P("p", vX), ast.P("p", vY)}}}}
+		opt = biscuit.WithWorldOptions(datalog.WithMaxFacts(n+3), datalog.WithMaxIterations(1000), datalog.WithMaxDuration(60*time.Second))
+	}
+	blocks := []ast.Block{auth}
+	if r.Intn(2) == 0 {
+		blocks = append(blocks, ast.Block{Facts: []ast.Pred{ast.P("note", ast.Int(1))}})
+	}
+	without, err1 := buildScenarioToken(c.Seed, fmt.Sprintf("c03f-%d-a", c.Idx), blocks)
+	with, err2 := buildScenarioToken(c.Seed, fmt.Sprintf("c03f-%d-b", c.Idx), append(append([]ast.Block{}, blocks...), heavy))
+	if err1 != nil || err2 != nil {
+		c.Violate("build-refused", fmt.Sprint(err1, err2), nil)
+		return
+	}
+	if r.Intn(2) == 0 {
+		if t2, err := with.Reload(); err == nil {
+			with = t2
+		}
+	}
+	v := ast.Var("v")
+	probes := []ast.Rule{{Head: ast.P("q", v), Body: []ast.Pred{ast.P("p", v)}}, {Head: ast.P("q"), Body: []ast.Pred{ast.P("step0")}}, {Head: ast.P("q"), Body: []ast.Pred{ast.P("step1")}},
+		{Head: ast.P("q", vX, vY), Body: []ast.Pred{ast.P("pair", vX, vY)}}, {Head: ast.P("q", v), Body: []ast.Pred{ast.P("note", v)}}}
+	obs := func(t *lib.Token) (cls lib.Class, answers []string, world string) {
+		pi := lib.Try(func() {
+			az, err := t.B.AuthorizerFor(biscuit.WithSingularRootPublicKey(t.Pub), opt)
+			if err != nil {
+				cls = lib.FAIL
+				return
+			}
+			az.AddPolicy(allowAll.Lib())
+			cls = lib.Classify(az.Authorize())
+			for _, p := range probes {
+				ks, err := lib.QueryKeys(az, p)
+				answers = append(answers, fmt.Sprint(ks, err != nil))
+			}
+			world = az.PrintWorld()
+		})
+		if pi != nil {
+			cls = lib.PANIC
+		}
+		return
+	}
+	cw, aw, ww := obs(with)
+	co, ao, wo := obs(without)
+	c.Eval(2)
+	desc := map[string]any{"limit": kind, "token_without": gen.Texts(without.Blocks), "failing_block": gen.Texts([]ast.Block{heavy})[0], "with": cw, "answers_with": aw, "without": co, "answers_without": ao}
+	if co != lib.OK || cw == lib.OK || cw == lib.PANIC {
+		c.Violate("failed-block-control", fmt.Sprintf("expected OK without the block and a refusal with it, got %s and %s", co, cw), desc)
+		return
+	}
+	if core.JSON(aw) != core.JSON(ao) {
+		c.Violate("failed-block-changes-query-results/"+kind, "after an Authorize that failed inside a later block, authorizer queries answer differently from the token without that block", desc)
+	} else if ww != wo {
+		desc["world_with"], desc["world_without"] = ww, wo
+		c.Violate("failed-block-changes-printed-world/"+kind, "after an Authorize that failed inside a later block, PrintWorld shows something else than for the token without that block", desc)
+	}
+	c.Count("failed_block_then_query_pairs", 1)
+	c.NT("failed-block/" + kind + fmt.Sprint(n, len(blocks)))
+}
+
 func c03Run(c *core.C) {
 	r := c.R
 	c03SharedTerms(c)
+	c03FailedBlockThenQuery(c)
 	// symbols are scoped like facts: a block cannot give a meaning to a symbol index that an
 	// earlier block left undefined, whichever way the token was derived (shared with C02)
 	if ds := gen.NewScenario(r, 2, scenOpts); true {
